@@ -87,9 +87,10 @@ func vFlusherSettled() bool {
 	return true
 }
 
-// vClientWaitsForFlusher: a client call is parked in the memstore hand-off, or in Close waiting for the flusher.
+// vClientWaitsForFlusher: a client call is parked in a channel send (the memstore hand-off, wherever the code
+// under test does it), or in Close waiting for the flusher.
 func vClientWaitsForFlusher() bool {
-	for _, st := range vrt.GoroutineStates("vClientCall", "rotateWalAndFlushMemstore") {
+	for _, st := range vrt.GoroutineStates("vClientCall") {
 		if st == "chan send" {
 			return true
 		}
@@ -229,7 +230,12 @@ func H_C05_TwoClients() {
 	nv := 0
 	for s := 0; s < steps; s++ {
 		k := vUniverse[vrt.Choose(vrt.K("key", s), len(vUniverse))]
-		op := vrt.Choose(vrt.K("op", s), 3)
+		// quick tier: one plain call, then the overlapping pair; thorough: overlapping pairs anywhere
+		nOps := 2
+		if vrt.Thorough() {
+			nOps = 3
+		}
+		op := vrt.Choose(vrt.K("op", s), nOps)
 		if s == steps-1 {
 			op = 2
 		}
@@ -269,22 +275,29 @@ func (h *vDB) overlap(s int, kg []byte, nv int) {
 	reader := func() { got, err = h.db.GetBytes(kg) }
 
 	if vrt.Symbolic() {
-		injected, inGet, n := false, true, 0
+		// either call is the one that is interrupted: the other one runs as a block at one of its lock-free
+		// synchronisation points (or after it)
+		first, second := reader, writer
+		if vrt.Choose(vrt.K("role", s), 2) == 1 {
+			first, second = writer, reader
+			vrt.Tag("get-runs-inside-the-writer")
+		}
+		injected, inFirst, n := false, true, 0
 		vrt.OnSync(func(kind string) {
-			if injected || !inGet || h.inBackground || vrt.LocksHeld() != 0 {
+			if injected || !inFirst || h.inBackground || vrt.LocksHeld() != 0 {
 				return
 			}
 			n++
 			if vrt.Choose(vrt.K("inj", s, n), 2) == 1 {
 				injected = true
-				vrt.Reach("two/writer-runs-inside-the-get")
-				vrt.RunAs(3, writer)
+				vrt.Reach("two/second-call-runs-inside-the-first")
+				vrt.RunAs(3, second)
 			}
 		})
-		reader()
-		inGet = false
+		first()
+		inFirst = false
 		if !injected {
-			writer()
+			second()
 		}
 		vrt.OnSync(func(kind string) {})
 	} else {
